@@ -110,6 +110,29 @@ def long_histories(ctx):
         shutil.rmtree(wd, ignore_errors=True)
 
 
+def _slow_handshake(args):
+    """Real UdpClient + real server loop with a one-way delay so that the handshake round trip is around the message time-out; the handler greets
+    the client from connect(); every datagram the server emits must be sealed (Trace_Server clause A_sealed)."""
+    seed, delay_ticks = args
+    import srvworld as SW
+    w = SW.ServerWorld(seed=seed, conn_timeout=6.0)
+    try:
+        w.greet = True
+        for k in range(3):
+            w.add_client(k + 1, ("10.4.0.%d" % k, 6000 + k))
+            w.clients[k + 1]["delay"] = delay_ticks + k
+        for t in range(60 * 5):
+            if t == 200:
+                for k in (1, 2, 3):
+                    if w.clients[k]["cl"].connected():
+                        w.clients[k]["cl"].send(w.aid(w.clients[k]["addr"]).to_bytes(4, "big") + b"DATAsecret-from-client", retry=-1)
+            w.tick()
+        w.shutdown()
+        return w.ev
+    finally:
+        w.close()
+
+
 def run(ctx):
     ctx.level = "model_checking"
     ctx.rule = ("every seal (call of crypto.encrypt_gcm) of both real endpoints is one evaluation; distinct = seals; non-trivial = all (each is checked for the premises "
@@ -119,6 +142,13 @@ def run(ctx):
     design(ctx)
     long_histories(ctx)
     q = ctx.quick
+    # handshakes whose round trip is around the 1 s message time-out (one-way delays 0.4 .. 0.7 s): nothing but the single signed hello in clear
+    from concurrent.futures import ProcessPoolExecutor
+    from props import srv_judge as SJ
+    jobs = [(ctx.seed + d, d) for d in (range(24, 44, 3) if q else range(20, 46))]
+    with ProcessPoolExecutor(min(16, len(jobs))) as ex:
+        traces = list(ex.map(_slow_handshake, jobs))
+    SJ.judge_and_report(ctx, "C03", traces, ["slow-handshake one-way delay %d ticks" % j[1] for j in jobs])
     J.run_scenarios(ctx, "C03", [
         dict(name="rate-cap-mixed", n=3 if q else 24, nticks=700 if q else 3000, heal_after=500 if q else 2500,
              policy=dict(p_send=0.6, p_loss=0.1, maxdelay=8, retries=(0, 1, -1)), world=dict(start_seq="alt")),
